@@ -245,9 +245,9 @@ def c06():
         t = "{% case x %} junk {% assign leaked = 'L' %}{% when 1 %}A{% when 2 %}B{% else %}E{% endcase %}[{% if leaked %}L{% else %}-{% endif %}]"
         out.append(R(t, {"output": {1: "A", 2: "B", 3: "E"}[target] + "[-]"}, {"x": target}, "content before the first when is not rendered"))
     # nil / empty string / empty array / blank string against the empty and blank literals, in every operand order, and in case/when
-    eb = {"n": None, "es": "", "sp": " ", "ea": [], "eo": {}, "s": "a", "z": 0, "f": False}
-    exp_empty = {"n": True, "es": True, "sp": False, "ea": True, "eo": True, "s": False, "z": False, "f": False}
-    exp_blank = {"n": True, "es": True, "sp": True, "ea": True, "eo": True, "s": False, "z": False, "f": True}
+    eb = {"n": None, "es": "", "sp": " ", "ea": [], "eo": {}, "s": "a", "z": 0, "f": False, "nb": "\u00a0", "ideo": "\u3000 \u2003", "vt": "\x0b\t\n", "nbx": "\u00a0x"}
+    exp_empty = {"n": True, "es": True, "sp": False, "ea": True, "eo": True, "s": False, "z": False, "f": False, "nb": False, "ideo": False, "vt": False, "nbx": False}
+    exp_blank = {"n": True, "es": True, "sp": True, "ea": True, "eo": True, "s": False, "z": False, "f": True, "nb": True, "ideo": True, "vt": True, "nbx": False}
     for x in eb:
         for lit, table in (("empty", exp_empty), ("blank", exp_blank)):
             e = "1" if table[x] else "0"
@@ -739,7 +739,7 @@ def c02_filters():
                 for a in argnames:
                     out.append(R("{{ %s | %s: %s }}" % (x, f, a), {"no_panic": True}, C02_POOL))
             if ar >= 2:
-                for a, b2 in (("neg", "imax"), ("imin", "imin"), ("zero", "zero"), ("s", "u1"), ("es", "es"), ("nil", "neg"), ("imax", "u3"), ("m64", "half")):
+                for a, b2 in (("neg", "imax"), ("imin", "imin"), ("imin", "imax"), ("m19", "imax"), ("zero", "zero"), ("s", "u1"), ("es", "es"), ("nil", "neg"), ("imax", "u3"), ("m64", "half")):
                     out.append(R("{{ %s | %s: %s, %s }}" % (x, f, a, b2), {"no_panic": True}, C02_POOL))
     # tags and blocks with stressed parameters
     for a in ("zero", "neg", "imax", "imin", "half", "es", "s", "nil", "ea", "o"):
@@ -977,6 +977,11 @@ def c14():
             if len(ints) == len(o):
                 st = sorted(o, key=lambda x: x["k"])
                 out.append(R("{{ o | sort: 'k' | map: 't' | join: '' }}", {"output": "".join(x["t"] for x in st)}, d, "sort by property is stable"))
+    # sort / sort_natural of a non-array: nil is the empty sequence, anything else a one-element sequence (a permutation of it)
+    nd = {"f": False, "t": True, "es": "", "s": "x", "z": 0, "eo": {}, "o": {"k": 1}, "n": None}
+    for x, n1 in (("f", 1), ("t", 1), ("es", 1), ("s", 1), ("z", 1), ("eo", 1), ("o", 1), ("n", 0)):
+        for flt in ("sort", "sort_natural"):
+            out.append(R("{{ %s | %s | size }}" % (x, flt), {"output": str(n1)}, nd, None, "sorting a non-array keeps it as the only element"))
     # property names that collide with the path overlay (size / first / last): map, where, sort read REAL members only
     sp = [{"name": "a", "size": "M"}, {"name": "b"}, {"name": "c", "size": "L", "first": 1}, {"name": "d", "colour": "x", "last": 2}, {}]
     for n in range(0, 4):
